@@ -568,6 +568,7 @@ type FuncContract struct {
 	Assumed    bool   // iface/extern: contract is an assumption
 	Kind       string // func | iface | extern
 	Asserts    []*AtAssert
+	OnlyCalls  []string // if set: every call with possible effects must be to one of these callees
 	LocalsLine string
 }
 
@@ -622,7 +623,7 @@ type ContractFile struct {
 var reFuncHdr = regexp.MustCompile(`^(func|iface|extern)\s+(\S+)(.*)$`)
 var reLoop = regexp.MustCompile(`^loop\s+(\d+)\s*:\s*(invariant|decreases|exhaustive)\b\s*(.*)$`)
 var reCalls = regexp.MustCompile(`^calls\s+(\S+?)#(\d+|\*)\s*:\s*(requires|ensures|set|pure)\b\s*(.*)$`)
-var reAt = regexp.MustCompile(`^at\s+(assign\s+(\w+)#(\d+)|loop\s+(\d+)\s+(?:back|exit)|send#(\d+))\s*:\s*(assert|set)\s+(.*)$`)
+var reAt = regexp.MustCompile(`^at\s+(assign\s+(\w+)#(\d+)|loop\s+(\d+)\s+(?:back|exit)|send#(\d+)|select#(\d+))\s*:\s*(assert|set)\s+(.*)$`)
 var reSpecFunc = regexp.MustCompile(`^spec\s+(?:func|macro)\s+(\w+)\s*\(([^)]*)\)\s*([\w.\[\]*$]+)\s*(?:=\s*(.*))?$`)
 var reGhost = regexp.MustCompile(`^ghost\s+(\w+)\s+([\w.\[\]*]+)\s*=\s*(.*)$`)
 var reSet = regexp.MustCompile(`^(\w+)\s*=\s*(.*)$`)
@@ -641,7 +642,7 @@ func ParseContractFile(path string) (*ContractFile, error) {
 	// First join continuation lines.  A //@ line starts a new clause if its
 	// first word is a keyword; otherwise it continues the previous clause.
 	keywords := map[string]bool{"func": true, "iface": true, "extern": true, "requires": true, "ensures": true, "loop": true,
-		"calls": true, "spec": true, "axiom": true, "lemma": true, "ghost": true, "modifies": true, "alias": true, "pure": true, "locals": true, "end": true, "at": true}
+		"calls": true, "spec": true, "axiom": true, "lemma": true, "ghost": true, "modifies": true, "alias": true, "pure": true, "locals": true, "end": true, "at": true, "only": true}
 	var raws []rawClause
 	for i, line := range strings.Split(string(data), "\n") {
 		tl := strings.TrimSpace(line)
@@ -807,12 +808,15 @@ func ParseContractFile(path string) (*ContractFile, error) {
 					aa.Anchor = "loopexit"
 				}
 				aa.Ord, _ = strconv.Atoi(m[4])
+			case m[6] != "":
+				aa.Anchor = "select"
+				aa.Ord, _ = strconv.Atoi(m[6])
 			default:
 				aa.Anchor = "send"
 				aa.Ord, _ = strconv.Atoi(m[5])
 			}
-			if m[6] == "set" {
-				sm := reSet.FindStringSubmatch(m[7])
+			if m[7] == "set" {
+				sm := reSet.FindStringSubmatch(m[8])
 				if sm == nil {
 					return nil, fmt.Errorf("%s:%d: bad set clause", path, rc.line)
 				}
@@ -822,7 +826,7 @@ func ParseContractFile(path string) (*ContractFile, error) {
 				}
 				aa.Set = &GhostSet{sm[1], e, sm[2]}
 			} else {
-				cl, err := mk("assert", m[7], rc.line)
+				cl, err := mk("assert", m[8], rc.line)
 				if err != nil {
 					return nil, err
 				}
@@ -856,6 +860,12 @@ func ParseContractFile(path string) (*ContractFile, error) {
 					cur.Modifies = append(cur.Modifies, f)
 				}
 			}
+		case strings.HasPrefix(body, "only calls"):
+			if cur == nil {
+				return nil, fmt.Errorf("%s:%d: clause outside func", path, rc.line)
+			}
+			rest := strings.TrimPrefix(strings.TrimSpace(body[len("only calls"):]), ":")
+			cur.OnlyCalls = append(cur.OnlyCalls, strings.Fields(strings.ReplaceAll(rest, ",", " "))...)
 		case strings.HasPrefix(body, "locals"):
 			if cur != nil {
 				cur.LocalsLine = body
